@@ -3,5 +3,5 @@
 # built on first use by ./check (it needs the nightly toolchain's sysroot).
 set -e
 cd "$(dirname "$0")/harness"
-CARGO_NET_OFFLINE=true cargo build --release --offline --quiet
+CARGO_NET_OFFLINE=true cargo build --release --offline --quiet --bins
 echo "harness built"
